@@ -51,15 +51,18 @@ if ok:
         print("REFUSING: /repo has uncommitted changes"); sys.exit(3)
     ap = sh("git -C /repo apply %s/patch.diff" % dst)
     try:
-        for c in checks:
+        for cspec in checks:
+            c, _, tier = cspec.partition("@")
+            tier = tier or "quick"
             t0 = time.time()
-            r = sh("cd /verif && ./check %s --tier quick" % c, timeout=3600)
-            lines = [l for l in r.stdout.split("\n") if l.startswith(("VIOLATION", "INCONCLUSIVE", "KNOWN-FINDING", c))]
+            r = sh("cd /verif && ./check %s --tier %s" % (c, tier), timeout=4 * 3600)
+            c = cspec
+            lines = [l for l in r.stdout.split("\n") if l.startswith(("VIOLATION", "INCONCLUSIVE", "KNOWN-FINDING", c.split("@")[0]))]
             meta["detected_by"][c] = {"exit": r.returncode, "wall_s": round(time.time() - t0, 1),
                                       "violations": [l for l in lines if l.startswith("VIOLATION")][:10],
                                       "inconclusive": [l[:200] for l in lines if l.startswith("INCONCLUSIVE")][:6],
                                       "summary": lines[-1] if lines else ""}
-            open(os.path.join(dst, "check_%s.log" % c), "w").write(r.stdout[-20000:])
+            open(os.path.join(dst, "check_%s.log" % c.replace("@", "_")), "w").write(r.stdout[-20000:])
     finally:
         sh("git -C /repo checkout -- .")
     # evidence files were rewritten by the runs above against the patched tree: regenerate them on the clean tree later
